@@ -23,10 +23,18 @@ import (
 )
 
 type voBehaviour struct {
-	Sched  []string `json:"sched"`
-	Broken []string `json:"broken"`
-	Vers   []string `json:"vers"`
-	Cur    string   `json:"cur"`
+	Sched   []string `json:"sched"`
+	Broken  []string `json:"broken"`
+	Vers    []string `json:"vers"`
+	Markers []string `json:"markers"`
+	Cur     string   `json:"cur"`
+}
+
+type voDel struct {
+	OK     bool  `json:"ok"`
+	Marker bool  `json:"marker"`
+	Inv    int64 `json:"inv"`
+	Ret    int64 `json:"ret"`
 }
 
 type voPut struct {
@@ -37,16 +45,19 @@ type voPut struct {
 
 // voLine is one history (the trace line) plus what is needed to replay it.
 type voLine struct {
-	Puts map[string]voPut `json:"puts"`
-	Pre  bool             `json:"pre"`
-	Vers []string         `json:"vers"`
-	Dup  bool             `json:"dup"`
-	Cur  string           `json:"cur"`
+	Puts    map[string]voPut `json:"puts"`
+	Dels    map[string]voDel `json:"dels"`
+	Pre     bool             `json:"pre"`
+	Vers    []string         `json:"vers"`
+	Markers []string         `json:"markers"`
+	Dup     bool             `json:"dup"`
+	Cur     string           `json:"cur"`
 	// not read by the spec
 	Overlap   bool     `json:"overlap"`
 	Sched     []string `json:"sched"`
 	Sidecar   bool     `json:"sidecar"`
 	ModelVers []string `json:"model_vers,omitempty"`
+	ModelMark []string `json:"model_markers,omitempty"`
 	ModelCur  string   `json:"model_cur,omitempty"`
 	Notes     []string `json:"notes,omitempty"`
 	Kinds     []string `json:"kinds,omitempty"` // what is wrong with the listed versions that are no upload
@@ -54,22 +65,25 @@ type voLine struct {
 }
 
 func (l voLine) traceLine() any {
-	return map[string]any{"puts": l.Puts, "pre": l.Pre, "vers": l.Vers, "dup": l.Dup, "cur": l.Cur}
+	return map[string]any{"puts": l.Puts, "dels": l.Dels, "pre": l.Pre, "vers": l.Vers, "markers": l.Markers, "dup": l.Dup, "cur": l.Cur}
 }
 
-func voCfg(procs string, pre, atLink, emit bool) string {
+func voCfg(procs, dels string, pre, atLink, emit bool) string {
 	b := func(v bool) string {
 		if v {
 			return "TRUE"
 		}
 		return "FALSE"
 	}
-	s := fmt.Sprintf("SPECIFICATION Spec\nCONSTANTS\n Procs = %s\n Pre = %s\n ArchiveAtLink = %s\n Emit = %s\nCHECK_DEADLOCK FALSE\n", procs, b(pre), b(atLink), b(emit))
+	s := fmt.Sprintf("SPECIFICATION Spec\nCONSTANTS\n Procs = %s\n Dels = %s\n Pre = %s\n Atomic = %s\n Emit = %s\nCHECK_DEADLOCK FALSE\n", procs, dels, b(pre), b(atLink), b(emit))
 	if !emit {
 		s += "INVARIANT NothingLost\n"
 	}
 	return s
 }
+
+// the ids "d" and "e" are DeleteObject requests, the others uploads
+func voIsDel(id string) bool { return id == "d" || id == "e" }
 
 // distinct sizes: a version cut to another version's length is not that version
 func voContent(id string) []byte {
@@ -78,29 +92,32 @@ func voContent(id string) []byte {
 }
 
 var voStops = []string{"put.stat_name", "put.body_done", "put.attrs_done"}
+var voDelStops = []string{"del.versioned", "del.marker_set"}
 
 func c09Overlap(c *core.Ctx, only *voLine) {
 	// (1) the repaired design loses nothing (spec sanity), the design as it is does
 	for _, pre := range []bool{true, false} {
-		res, err := tlc.Run(c.Scratch, tlc.Opts{Module: "VersionOverlap", CfgText: voCfg(`{"a", "b", "c"}`, pre, true, false), Workers: 4})
+		res, err := tlc.Run(c.Scratch, tlc.Opts{Module: "VersionOverlap", CfgText: voCfg(`{"a", "b", "d"}`, `{"d"}`, pre, true, false), Workers: 4})
 		if err != nil || !res.OK {
 			c.Inconclusive("VersionOverlap: the repaired design does not satisfy NothingLost (spec bug): %v %v", err, res.MustOK())
 			return
 		}
 		c.States += res.Distinct
 		c.Transitions += res.Generated
-		c.TLCRuns = append(c.TLCRuns, res.Summary("VersionOverlap", fmt.Sprintf("3 uploads Pre=%v ArchiveAtLink=TRUE: NothingLost", pre)))
+		c.TLCRuns = append(c.TLCRuns, res.Summary("VersionOverlap", fmt.Sprintf("2 uploads + 1 delete Pre=%v Atomic=TRUE: NothingLost", pre)))
 		res.Cleanup()
 	}
 	// (2) the behaviours of the design as it is = the schedules
 	type plan struct {
 		procs  string
+		dels   string
 		pre    bool
 		sample int
 	}
-	plans := []plan{{`{"a", "b"}`, true, 0}, {`{"a", "b"}`, false, 0}}
+	plans := []plan{{`{"a", "b"}`, `{}`, true, 0}, {`{"a", "b"}`, `{}`, false, 0}, {`{"a", "d"}`, `{"d"}`, true, 0}}
 	if c.Thorough() {
-		plans = append(plans, plan{`{"a", "b", "c"}`, true, 250}, plan{`{"a", "b", "c"}`, false, 150})
+		plans = append(plans, plan{`{"a", "b", "c"}`, `{}`, true, 250}, plan{`{"a", "b", "c"}`, `{}`, false, 150},
+			plan{`{"a", "d"}`, `{"d"}`, false, 0}, plan{`{"a", "b", "d"}`, `{"d"}`, true, 250}, plan{`{"a", "d", "e"}`, `{"d", "e"}`, true, 150})
 	}
 	type job struct {
 		pre  bool
@@ -108,10 +125,10 @@ func c09Overlap(c *core.Ctx, only *voLine) {
 	}
 	var jobs []job
 	if only != nil {
-		jobs = []job{{only.Pre, []voBehaviour{{Sched: only.Sched, Vers: only.ModelVers, Cur: only.ModelCur}}}}
+		jobs = []job{{only.Pre, []voBehaviour{{Sched: only.Sched, Vers: only.ModelVers, Markers: only.ModelMark, Cur: only.ModelCur}}}}
 	} else {
 		for pi, pl := range plans {
-			o := tlc.Opts{Module: "VersionOverlap", CfgText: voCfg(pl.procs, pl.pre, false, true), Workers: 1}
+			o := tlc.Opts{Module: "VersionOverlap", CfgText: voCfg(pl.procs, pl.dels, pl.pre, false, true), Workers: 1}
 			if pl.sample > 0 {
 				o.Simulate = fmt.Sprintf("num=%d", pl.sample)
 				o.Depth = 20
@@ -124,7 +141,7 @@ func c09Overlap(c *core.Ctx, only *voLine) {
 			}
 			c.States += res.Distinct
 			c.Transitions += res.Generated
-			c.TLCRuns = append(c.TLCRuns, res.Summary("VersionOverlap", fmt.Sprintf("Procs=%s Pre=%v as-is design, behaviours emitted (sample=%d)", pl.procs, pl.pre, pl.sample)))
+			c.TLCRuns = append(c.TLCRuns, res.Summary("VersionOverlap", fmt.Sprintf("Procs=%s Dels=%s Pre=%v as-is design, behaviours emitted (sample=%d)", pl.procs, pl.dels, pl.pre, pl.sample)))
 			seen := map[string]bool{}
 			j := job{pre: pl.pre}
 			for _, l := range res.PrintLines {
@@ -180,7 +197,7 @@ func c09Overlap(c *core.Ctx, only *voLine) {
 			for _, b := range j.behs {
 				seq++
 				key := fmt.Sprintf("k%04d", seq)
-				line := voLine{Puts: map[string]voPut{}, Pre: j.pre, Sched: b.Sched, Sidecar: sidecar, ModelVers: b.Vers, ModelCur: b.Cur, Vers: []string{}}
+				line := voLine{Puts: map[string]voPut{}, Dels: map[string]voDel{}, Pre: j.pre, Sched: b.Sched, Sidecar: sidecar, ModelVers: b.Vers, ModelMark: b.Markers, ModelCur: b.Cur, Vers: []string{}, Markers: []string{}}
 				if j.pre {
 					if r := PutObject(cl, bucket, key, voContent("v0")); !r.OK() {
 						c.Inconclusive("put v0: %v", r)
@@ -200,6 +217,12 @@ func c09Overlap(c *core.Ctx, only *voLine) {
 				for _, p := range names {
 					p := p
 					lab := fmt.Sprintf("%s-%d", p, seq)
+					if voIsDel(p) {
+						procs = append(procs, &sched.Proc{Label: lab, Stops: voDelStops, Run: func() any {
+							return cl.Do(s3c.Req{Method: "DELETE", Path: "/" + bucket + "/" + key, Label: lab, Timeout: 30 * time.Second})
+						}})
+						continue
+					}
 					procs = append(procs, &sched.Proc{Label: lab, Stops: voStops, Run: func() any {
 						return cl.Do(s3c.Req{Method: "PUT", Path: "/" + bucket + "/" + key, Body: voContent(p), Label: lab, Timeout: 30 * time.Second})
 					}})
@@ -213,26 +236,47 @@ func c09Overlap(c *core.Ctx, only *voLine) {
 					c.Inconclusive("overlap schedule %v: %v", b.Sched, err)
 					return
 				}
+				ackVid := map[string]string{}
 				for _, p := range names {
 					r := res[fmt.Sprintf("%s-%d", p, seq)]
 					resp := r.Obs.(*s3c.Resp)
-					line.Puts[p] = voPut{OK: resp.OK(), Inv: r.Inv, Ret: r.Ret}
-					if !resp.OK() {
+					if voIsDel(p) {
+						okd := resp.Err == nil && resp.Status >= 200 && resp.Status < 300
+						line.Dels[p] = voDel{OK: okd, Marker: resp.Header.Get("X-Amz-Delete-Marker") == "true", Inv: r.Inv, Ret: r.Ret}
+						ackVid[p] = resp.Header.Get("X-Amz-Version-Id")
+					} else {
+						line.Puts[p] = voPut{OK: resp.OK(), Inv: r.Inv, Ret: r.Ret}
+						ackVid[p] = resp.Header.Get("X-Amz-Version-Id")
+					}
+					if resp.Err != nil || resp.Status >= 300 {
 						line.Notes = append(line.Notes, fmt.Sprintf("%s: %v", p, resp))
 					}
 					if r.Stalled != "" {
 						line.Notes = append(line.Notes, "schedule could not be forced (stalled at "+r.Stalled+")")
 					}
 				}
+				span := func(x string) (int64, int64) {
+					if voIsDel(x) {
+						return line.Dels[x].Inv, line.Dels[x].Ret
+					}
+					return line.Puts[x].Inv, line.Puts[x].Ret
+				}
 				for _, p := range names {
 					for _, q := range names {
-						if p < q && !(line.Puts[p].Ret < line.Puts[q].Inv || line.Puts[q].Ret < line.Puts[p].Inv) {
+						pi, pr := span(p)
+						qi, qr := span(q)
+						if p < q && !(pr < qi || qr < pi) {
 							line.Overlap = true
 						}
 					}
 				}
 				// what a client sees afterwards
-				all := append([]string{"v0"}, names...)
+				all := []string{"v0"}
+				for _, p := range names {
+					if !voIsDel(p) {
+						all = append(all, p)
+					}
+				}
 				which := func(r *s3c.Resp) string {
 					for _, id := range all {
 						body := voContent(id)
@@ -280,6 +324,11 @@ func c09Overlap(c *core.Ctx, only *voLine) {
 						line.Notes = append(line.Notes, fmt.Sprintf("version %s: GET %d, listed size %d, the bytes of %s under the ETag of %s", v.VersionId, g.Status, v.Size, bytesOf, etagOf))
 						continue
 					}
+					if want, acked := ackVid[id]; acked && want != "" && want != v.VersionId {
+						line.Notes = append(line.Notes, fmt.Sprintf("the bytes and ETag of %s are listed under version id %s, acknowledged was %s", id, v.VersionId, want))
+						line.Kinds = append(line.Kinds, "other-version-id")
+						continue
+					}
 					count[id]++
 					if count[id] == 1 {
 						line.Vers = append(line.Vers, id)
@@ -288,6 +337,17 @@ func c09Overlap(c *core.Ctx, only *voLine) {
 					}
 				}
 				sort.Strings(line.Vers)
+				for _, m := range lv.DeleteMarkers {
+					if m.Key != key {
+						continue
+					}
+					for _, p := range names {
+						if voIsDel(p) && ackVid[p] != "" && ackVid[p] == m.VersionId {
+							line.Markers = append(line.Markers, p)
+						}
+					}
+				}
+				sort.Strings(line.Markers)
 				line.Cur = "none"
 				if g := GetObject(cl, bucket, key); g.OK() {
 					line.Cur = which(g)
@@ -330,12 +390,19 @@ func c09Overlap(c *core.Ctx, only *voLine) {
 		// is another defect
 		mv := append([]string{}, l.ModelVers...)
 		sort.Strings(mv)
-		predicted := l.ModelVers != nil && strings.Join(mv, ",") == strings.Join(l.Vers, ",") && l.ModelCur == l.Cur && !l.Dup
+		mm := append([]string{}, l.ModelMark...)
+		sort.Strings(mm)
+		predicted := l.ModelVers != nil && strings.Join(mv, ",") == strings.Join(l.Vers, ",") && strings.Join(mm, ",") == strings.Join(l.Markers, ",") && l.ModelCur == l.Cur && !l.Dup
 		store := "xattr"
 		if l.Sidecar {
 			store = "sidecar"
 		}
 		fp := core.FP("C09", "overlap", cls, "archive-then-link", store)
+		if len(l.Dels) > 0 {
+			// (with a delete among the requests the as-is model predicts several
+			// combinations of broken rules: one finding, whatever the combination)
+			fp = core.FP("C09", "overlap", "as-predicted", "archive-then-mark", store)
+		}
 		if !predicted {
 			kinds := "version-missing"
 			if len(l.Kinds) > 0 {
@@ -353,7 +420,7 @@ func c09Overlap(c *core.Ctx, only *voLine) {
 			fp = core.FP("C09", "overlap", kinds, "not-predicted-by-model", store)
 		}
 		b, _ := json.Marshal(l.traceLine())
-		c.Violation(fp, fmt.Sprintf("overlapping uploads of one key of a versioned bucket (%s store), schedule %v: history %s breaks %s (the design as it is predicts versions %v, current %s) %s",
-			store, l.Sched, b, cls, mv, l.ModelCur, strings.Join(l.Notes, "; ")), map[string]any{"part": "overlap", "line": l})
+		c.Violation(fp, fmt.Sprintf("overlapping uploads of one key of a versioned bucket (%s store), schedule %v: history %s breaks %s (the design as it is predicts versions %v, markers %v, current %s) %s",
+			store, l.Sched, b, cls, mv, mm, l.ModelCur, strings.Join(l.Notes, "; ")), map[string]any{"part": "overlap", "line": l})
 	}
 }
